@@ -493,6 +493,15 @@ def _category_object(cls):
     from dataclasses import dataclass, make_dataclass
 
     mk = lambda vals: make_dataclass("Cat", [(f"f{i}", type(v), v) for i, v in enumerate(vals)])  # noqa: E731
+    if cls in ("classvar_valid", "classvar_invalid", "initvar_trailing"):
+        # written as source and compiled without this module's `from __future__ import annotations`: real annotation objects
+        ns = {}
+        src = {"classvar_valid": "description: ClassVar[str] = 'labour supply'\n    bad: int = 0\n    good: int = 1",
+               "classvar_invalid": "n_instances: ClassVar[int] = 0\n    low: int = 1\n    high: int = 2",
+               "initvar_trailing": "low: int = 0\n    high: int = 1\n    scale: InitVar[int] = 2"}[cls]
+        code = "from dataclasses import dataclass, InitVar\nfrom typing import ClassVar\n@dataclass\nclass Cat:\n    " + src + "\n"
+        exec(compile(code, "<category class>", "exec", dont_inherit=True), ns)  # noqa: S102  (dont_inherit: real annotations, not strings)
+        return ns["Cat"]
     if cls == "plain":
         class Plain:
             a = 0
